@@ -66,6 +66,11 @@ def programs_for(prop):
         ps += gen.generated_programs(n, common.seed())
     except ImportError:
         pass
+    if prop == "C06":
+        # every operator directly under / beside every other one, in assignments, appends and conditions (the seed-independent expression
+        # programs of C14): the expression text is part of what the emitted C executes
+        from . import c14
+        ps += [{k: v for k, v in p_.items() if k != "trees"} for p_ in c14.pair_programs()]
     return ps
 
 
@@ -83,6 +88,17 @@ def main_for(prop):
         # byte tests: for ALL transitions (symbol lists), thresholds and flag values the emitted condition denotes exactly the symbols
         from . import cond_proofs
         cond_proofs.run(rep, "C06")
+        # expression text: the renderer is proved for every expression tree (structural induction over the node classes, pyvc)
+        try:
+            from . import c14_proofs
+            from ..pyvc.driver import Program
+            from ..pyvc.sym import Unsupported, NeedFork
+            try:
+                c14_proofs.prove(rep, common.load_nmfu(), Program(common.load_nmfu(), common.repo_source()), prop="C06")
+            except (Unsupported, NeedFork) as e:
+                rep.unavailable("C06/pyvc/CodegenCtx._generate_code_for_int_expr/engine", f"outside the modelled Python subset: {type(e).__name__}: {e}")
+        except ImportError:
+            pass
         spec = dict(spec)
         spec["text"] += (" In addition, for ALL symbol lists, collapse thresholds and flag values (not per program): the condition text emitted by _generate_condition_for_transition denotes exactly the "
                          "transition's byte symbols (pyarr: VCs from the real AST with loop invariants, discharged by z3; leaf templates by exhaustion through the C expression parser).")
